@@ -10,9 +10,14 @@
 (*                     exists                                                                   *)
 (*   MidpointLookupOK  a midpoint lookup table over `GrayTable` (the way the code finds nearest *)
 (*                     values) agrees with the contract                                         *)
+(*   Rgb6ReductionOK   reading '#rrggbb' at a palette depth as the '#rgb' of the leading hex     *)
+(*                     digits (the way the code reduces it) gives a result the contract accepts  *)
 (* Variant = "ref" must pass.  Deliberately wrong variants must be refuted:                     *)
 (*   "desc88_uses_256_steps"  88-colour normal forms taken from the 256-colour cube steps -> Idempotent fails *)
 (*   "gray245_typo"    gray ramp entry 13 = 0x84 (as in the code) -> MidpointLookupOK fails      *)
+(*   "rgb6_snapped_twice"  at 88 colours '#rrggbb' is first snapped to the 256-colour cube and   *)
+(*                     the normal form of that entry is then read in the 88-colour cube          *)
+(*                     -> Rgb6ReductionOK fails (leading digit 3, 4 or b)                        *)
 EXTENDS AttrSpecOps
 
 CONSTANTS Variant, Rgb6Vals
@@ -62,6 +67,14 @@ ExactPreserved ==
     /\ (d.k = "grayhex" /\ depth # TRUEC /\ IsExact(P, d) =>
           Cardinality(ColourSet(depth, d)) = 1 /\ \A c \in ColourSet(depth, d) : RGB(P, c.n) = <<d.a, d.a, d.a>>)
     /\ (d.k \in {"gray", "grayhex", "rgb3"} /\ IsExact(P, d) => Cardinality(ColourSet(depth, d)) = 1)
+
+\* how a 24-bit colour is reduced before the cube of a palette depth is looked up
+Lead(x) == D("rgb3", x.a \div 16, x.b \div 16, x.c \div 16)
+Reduced(x) == IF Variant = "rgb6_snapped_twice" /\ P = 88
+              THEN {Describe(256, High(n)) : n \in Entries(256, Lead(x))}
+              ELSE {Lead(x)}
+Rgb6ReductionOK ==
+  (d.k = "rgb6" /\ depth \in {88, 256}) => \A x \in Reduced(d) : Entries(P, x) # {} /\ Entries(P, x) \subseteq Entries(P, d)
 
 Dist2(t, u) == (t[1] - u[1]) * (t[1] - u[1]) + (t[2] - u[2]) * (t[2] - u[2]) + (t[3] - u[3]) * (t[3] - u[3])
 EuclidNearest ==
